@@ -490,6 +490,54 @@ def early_phase_case(ctx, idx, sig, frac):
     return res
 
 
+def load_module_case(ctx, idx, sig, shape):
+    """signal while a Starlark module that BUILD.star load()s (directly, or through another module, or as the second of two loads)
+    does practically endless work at its top level: the evaluation of a loaded module runs on a thread of its own and has to be
+    stopped by the cancellation too. `grog build`, `grog test`, `grog query`-like commands all load first; build is used here."""
+    d0 = ctx.scratch(f"c18-loadmod-{idx}")
+    spin = ("def _spin(n):\n    x = 0\n    for i in range(n):\n        for j in range(n):\n            x += 1\n    return x\n\n"
+            "GENERATED = _spin(100000)\n\n")
+    gen = 'def gen(name):\n    target(name = name, command = "echo " + str(GENERATED) + " > out.txt", outputs = ["out.txt"])\n'
+    files = {}
+    if shape == "direct":
+        files["defs.star"] = spin + gen
+        files["pkg/BUILD.star"] = 'load("//defs.star", "gen")\ngen("a")\n'
+    elif shape == "nested":
+        files["inner.star"] = spin
+        files["defs.star"] = 'load("//inner.star", "GENERATED")\n' + gen
+        files["pkg/BUILD.star"] = 'load("//defs.star", "gen")\ngen("a")\n'
+    else:   # "second": a quick module first, the slow one second, in a package next to an ordinary JSON package
+        files["quick.star"] = 'def q(name):\n    target(name = name, command = "true")\n'
+        files["defs.star"] = spin + gen
+        files["pkg/BUILD.star"] = 'load("//quick.star", "q")\nload("//defs.star", "gen")\nq("b")\ngen("a")\n'
+        files["other/BUILD.json"] = json.dumps({"targets": [{"name": "o", "command": "true"}]})
+    d, ws_dir, root, env = _mk_ws(ctx, f"c18-loadmod-{idx}/w", None, extra_files=files)
+    res = {"family": "phase:load-module", "command": "build", "signal": sig.name, "workers": 2, "delay": 1.0, "shape": shape, "finished_before": False, "interrupted": True, "bad": []}
+    import shutil
+    outp = os.path.join(d0, "out")
+    p, fh = _start(ctx, ws_dir, env, ["build", "//..."], outp)
+    try:
+        time.sleep(1.0)
+        if p.poll() is not None:
+            res["finished_before"] = True
+            res["out"] = open(outp, errors="replace").read()[-600:]
+            res["bad"].append(("load-module-scenario-did-not-run", f"grog exited with {p.returncode} before the signal: the slow module was not being evaluated"))
+            return res
+        os.kill(p.pid, sig)
+        rc, lat, out = _finish(p, fh, outp, bound=12)
+        res.update(rc=rc, latency=round(lat, 2) if lat is not None else None)
+        if lat is None:
+            res["bad"].append(("no-exit-after-signal", f"{sig.name} while a module load()ed by BUILD.star ({shape}) was being evaluated: grog was still running 12 s later"))
+        else:
+            _verdict(res["bad"], f"grog build interrupted while a load()ed Starlark module ({shape}) was being evaluated", rc, lat, sig)
+        if res["bad"]:
+            res["out"] = out[-600:]
+    finally:
+        kill_session(p.pid)
+        shutil.rmtree(d0, ignore_errors=True)
+    return res
+
+
 def late_phase_case(ctx, idx, sig, phase):
     """phase 'write': the signal arrives right after the command of a target with a large output ended (outputs are being
     written to the cache); phase 'shutdown': after grog printed its summary"""
@@ -737,6 +785,8 @@ def run(ctx):
             k += 20
             for j, ph in enumerate(("write", "shutdown") * (1 if quick else 3)):
                 futs.append(ex.submit(confirmed, late_phase_case, ctx, k + j, S[(j + ctx.seed) % 2], ph))
+            for j, shape in enumerate(("direct", "nested", "second") if quick else ("direct", "nested", "second") * 3):
+                futs.append(ex.submit(confirmed, load_module_case, ctx, 600 + j, S[(j + ctx.seed) % 2], shape))
             futs += [ex.submit(confirmed, signal_case, ctx, i, s) for i, s in enumerate(seeds)]
             for f in futs:
                 results.append(f.result())
